@@ -285,4 +285,9 @@ def obsStr (a b : List Nat) : Obs :=
 def obsVal (a b : JVal) : Obs :=
   { lt := Val.lt a b, le := Val.le a b, gt := Val.gt a b, ge := Val.ge a b, eq := Val.eq a b }
 
+/-- The proposed repair (`notes/fix-value-compare-deref-right.diff`) dereferences the right
+    operand too; every operator then compares the pointed-to values.  Observations of the repaired
+    operators (driver op `ordvalf`, used to validate the patch on a scratch copy). -/
+def obsValFixed (a b : JVal) : Obs := obsVal (strip a) (strip b)
+
 end Qentem.Order
